@@ -178,6 +178,18 @@ example :
 example :
     Src.renet.packet.Packet.to_bytes (.Ack 300 [⟨10, 20⟩, ⟨35, 40⟩]) (OctetsMut.with_slice (List.replicate 7 0)) =
       .err .BufferTooShort := by decide +kernel
+
+/-! `Packet::from_bytes` is translated too (generated `Src.renet.packet.Packet.from_bytes`); test vectors: -/
+example :
+    Src.renet.packet.Packet.from_bytes (Octets.with_slice [0, 5, 1, 0, 1, 7, 3, 9, 9, 9, 0, 0]) =
+      .ok (⟨[0, 5, 1, 0, 1, 7, 3, 9, 9, 9, 0, 0], 10⟩, .SmallReliable 5 1 [(7, [9, 9, 9])]) := by decide +kernel
+example :
+    Src.renet.packet.Packet.from_bytes (Octets.with_slice [4, 0x41, 0x2c, 39, 4, 1, 14, 9]) =
+      .ok (⟨[4, 0x41, 0x2c, 39, 4, 1, 14, 9], 8⟩, .Ack 300 [⟨10, 20⟩, ⟨35, 40⟩]) := by decide +kernel
+example : Src.renet.packet.Packet.from_bytes (Octets.with_slice [2, 5, 1, 7, 0, 0, 1, 9]) = .err .InvalidNumSlices := by
+  decide +kernel
+example : Src.renet.packet.Packet.from_bytes (Octets.with_slice [4, 0x41]) = .err .BufferTooShort := by decide +kernel
+example : Src.renet.packet.Packet.from_bytes (Octets.with_slice [9]) = .err .InvalidPacketType := by decide +kernel
 end D
 
 end RenetVerif.SrcTie
